@@ -37,6 +37,20 @@ class Vec(list):
     def __gt__(self, o):
         return self._cmp(o, lambda a, b: a > b)
 
+    def _zip(self, o, f):
+        if isinstance(o, list):
+            return Vec(f(a, b) for a, b in zip(self, o))
+        return Vec(f(a, o) for a in self)
+
+    def __or__(self, o):
+        return self._zip(o, lambda a, b: bool(a) or bool(b))
+
+    def __and__(self, o):
+        return self._zip(o, lambda a, b: bool(a) and bool(b))
+
+    def __invert__(self):
+        return Vec(not a for a in self)
+
 
 class TermEval:
     """evaluates abstract terms on a representative valuation; `leaf(term)` supplies the values of opaque terms"""
@@ -87,6 +101,9 @@ class TermEval:
                 return v[2]
         if h == "slice":
             return slice(self.ev(t[1]), self.ev(t[2]), self.ev(t[3]))
+        if h == "inv":
+            v_ = self.ev(t[1])
+            return (not v_) if isinstance(v_, bool) else ~v_
         if h == "neg":
             return -self.ev(t[1])
         if h == "not":
@@ -97,7 +114,8 @@ class TermEval:
             a, b = self.ev(t[2]), self.ev(t[3])
             op = t[1]
             return {"+": lambda: a + b, "-": lambda: a - b, "*": lambda: a * b, "/": lambda: a / b,
-                    "//": lambda: a // b, "%": lambda: a % b, "**": lambda: a ** b}[op]()
+                    "//": lambda: a // b, "%": lambda: a % b, "**": lambda: a ** b,
+                    "|": lambda: a | b, "&": lambda: a & b, "^": lambda: a ^ b}[op]()
         if h == "cmp":
             a, b = self.ev(t[2]), self.ev(t[3])
             return self.cmp(t[1], a, b)
@@ -140,7 +158,13 @@ class TermEval:
             if leafname == "ceil":
                 return float(math.ceil(args[0]))
             if leafname == "isclose":
-                return math.isclose(args[0], args[1], rel_tol=1e-5, abs_tol=1e-8)
+                # NumPy's definition: |a - b| <= atol + rtol * |b| (element-wise on a vector)
+                nc = lambda a, b: abs(a - b) <= 1e-8 + 1e-5 * abs(b)
+                if isinstance(args[0], list):
+                    return Vec(nc(a, args[1]) for a in args[0])
+                if isinstance(args[1], list):
+                    return Vec(nc(args[0], b) for b in args[1])
+                return nc(args[0], args[1])
             if leafname == "abs":
                 return abs(args[0])
             if leafname in ("max", "min"):
